@@ -173,3 +173,51 @@ def wf_netlist(netlist, require_references=True):
         elif k == "O" and not _is_stored(o):
             bad.append(("escape:outerpin", "%s reachable but not stored on an instance" % d(o)))
     return bad
+
+
+def held_views(w):
+    """a view obtained earlier keeps showing what the container holds now (same members, same order, same objects)."""
+    bad = []
+    for owner, attr, view in getattr(w, "views", ()):
+        now = getattr(owner, attr)
+        try:
+            a, b = list(view), list(now)
+            if hasattr(now, "keys"):
+                same = [id(x) for x in a] == [id(x) for x in b] and all(view[k] is now[k] for k in b)
+            else:
+                same = [id(x) for x in a] == [id(x) for x in b]
+        except Exception as ex:
+            same = False
+        if not same:
+            bad.append(("held-view-out-of-step:%s.%s" % (type(owner).__name__, attr), "a view taken before the edits lists %d, the container %d" % (len(list(view)), len(list(now)))))
+    return bad
+
+
+def shared_metadata(netlist):
+    """no two elements of a netlist hold one and the same mutable metadata container (dictionary, list, set) in
+    their data: an edit of one element's metadata would otherwise silently edit the other's."""
+    w = World()
+    w.add(netlist)
+    w.discover()
+    owner = {}
+    bad = []
+    for i in range(len(w)):
+        o = w[i]
+        data = getattr(o, "_data", None)
+        if data is None:
+            continue
+        todo = [("", data)]
+        while todo:
+            path, x = todo.pop()
+            if isinstance(x, (dict, list, set)):
+                first = owner.setdefault(id(x), (i, path))
+                if first[0] != i:
+                    bad.append(("metadata-shared:%s%s" % (w.kind[i], w.kind[first[0]]),
+                                "%s and %s hold the same %s object at %s / %s" % (
+                                    describe(w, i), describe(w, first[0]), type(x).__name__, path or "data", first[1] or "data")))
+                    continue
+                if isinstance(x, dict):
+                    todo.extend(("%s[%r]" % (path, k), v) for k, v in x.items())
+                elif isinstance(x, list):
+                    todo.extend(("%s[%d]" % (path, k), v) for k, v in enumerate(x))
+    return bad
